@@ -47,6 +47,7 @@ func C07(ctx *core.Ctx) {
 	ctx.Rule("C07.R2", "spawned-goroutine field discipline: goroutines started by Subscribe read only stable fields or read under the writers' lock", 4)
 	ctx.Rule("C07.R3", "unsubscribe reaches workers: the loop's quit channel is closed exactly once on Unsubscribe's success path and the broker subscription is cancelled", 4)
 	ctx.Rule("C07.R4", "ack discipline: a message is acknowledged only on the nil-error edge of the callback", 1)
+	ctx.Rule("C07.R11", "a STOMP subscriber acknowledges off its consuming goroutine (a synchronous Conn.Ack deadlocks with go-stomp's read loop under back-pressure)", 1)
 	ctx.Rule("C07.R6", "fresh channels per subscriber transport instance", 4)
 	ctx.Rule("C07.R7", "no drop between broker and workers: the subscription handler hands each message to the work queue with a plain (back-pressure) send", 1)
 	c07PerMessage(ctx, r)
@@ -273,33 +274,54 @@ func C07(ctx *core.Ctx) {
 				}
 				ctx.Check(cancel, "C07.R3", ssax.Name(unsub)+" › cancels the broker subscription", fnPos(r, unsub), "sub.Unsubscribe()", "the broker subscription is not cancelled")
 			}
-			// ---- R4 ---------------------------------------------------------------
-			for _, c := range ssax.Calls(w) {
-				isAck := false
-				for _, t := range r.Resolve(c) {
-					if len(ssax.CallsTo(t, "(*github.com/go-stomp/stomp.Conn).Ack")) > 0 {
-						isAck = true
-					}
-				}
-				if !isAck {
-					continue
-				}
-				// dominated by the nil edge of the callback's error
-				ok := false
-				for _, cb := range ssax.Calls(w) {
-					if cb.Static != nil || cb.Method != nil {
-						continue
-					}
-					if !ssax.TypeNamed(cb.Common.Value.Type(), "", "FAsyncCallback") {
-						continue
-					}
-					if nb := errNilSuccessor(cb.Instr.Value()); nb != nil {
-						if nb == c.Instr.Block() || nb.Dominates(c.Instr.Block()) {
-							ok = true
+			// ---- R11: the consumer never acknowledges synchronously --------------------
+			// go-stomp forwards inbound messages and drains the connection's write channel on one
+			// goroutine: an Ack issued on the goroutine that drains the subscription channel waits
+			// for that goroutine while it waits for the subscriber — under a burst both stop.
+			{
+				syncAck := ""
+				for _, g := range localCone(w, 3) { // localCone follows synchronous calls only (not `go`)
+					for _, c := range ssax.CallsTo(g, "(*github.com/go-stomp/stomp.Conn).Ack") {
+						if _, isGo := c.Instr.(*ssa.Go); !isGo {
+							syncAck = r.IPos(c.Instr) + " (in " + ssax.Name(g) + ")"
 						}
 					}
 				}
-				ctx.Check(ok, "C07.R4", wn+" › ack only after the callback succeeded", r.IPos(c.Instr), "ack dominated by the err == nil edge of the callback", "a message is acknowledged although its callback failed (or before it ran): the broker will not redeliver it")
+				ctx.Check(syncAck == "", "C07.R11", wn+" › acknowledgements leave the consuming goroutine", fnPos(r, w), "Conn.Ack is reached only through a go statement",
+					"the subscription's consumer goroutine calls Conn.Ack itself at "+syncAck+": with the subscription buffer full and the connection's write channel full of acks, go-stomp's read loop and this goroutine wait for each other — the subscriber (and everything sharing the connection) stops after a burst and later messages are never delivered")
+			}
+			// ---- R4 ---------------------------------------------------------------
+			for _, w := range localCone(w, 1) { // the loop, or the per-message helper its body was moved into
+				if w.Object() != nil && w.Object().Exported() {
+					continue
+				}
+				for _, c := range ssax.Calls(w) {
+					isAck := false
+					for _, t := range r.Resolve(c) {
+						if len(ssax.CallsTo(t, "(*github.com/go-stomp/stomp.Conn).Ack")) > 0 {
+							isAck = true
+						}
+					}
+					if !isAck {
+						continue
+					}
+					// dominated by the nil edge of the callback's error
+					ok := false
+					for _, cb := range ssax.Calls(w) {
+						if cb.Static != nil || cb.Method != nil {
+							continue
+						}
+						if !ssax.TypeNamed(cb.Common.Value.Type(), "", "FAsyncCallback") {
+							continue
+						}
+						if nb := errNilSuccessor(cb.Instr.Value()); nb != nil {
+							if nb == c.Instr.Block() || nb.Dominates(c.Instr.Block()) {
+								ok = true
+							}
+						}
+					}
+					ctx.Check(ok, "C07.R4", wn+" › ack only after the callback succeeded", r.IPos(c.Instr), "ack dominated by the err == nil edge of the callback", "a message is acknowledged although its callback failed (or before it ran): the broker will not redeliver it")
+				}
 			}
 		}
 		_ = sp
